@@ -879,7 +879,6 @@ func constantToInt64(v constant.Value) (int64, bool) {
 	return constant.Int64Val(constant.ToInt(v))
 }
 
-
 // ldr16IndexSearch (D43, known finding): WorkingMemory.IndexVariables decides "node X depends on variable V" by searching
 // V's snapshot text in X's, for every variable and every node of the registry. With n variables whose texts are as long
 // as the nesting is deep (a[a[a[…]]]) that is n * 2n searches over texts of length n: the third mechanism that makes the
@@ -915,4 +914,299 @@ func ldr16IndexSearch(c *Ctx) {
 		}
 	}
 	c.Check(allPairs == "", "WorkingMemory.IndexVariables / the index is not built by a text search of every variable in every node", p.Pos(fn.Pos()), "no strings.Contains inside two nested loops over the registries", "every variable's snapshot is searched in every expression's and atom's (strings.Contains at "+allPairs+" inside two nested loops over the registries): `rule R { when a[a[a[…1…]]] == 1 then x = 1; }` with 1000 nested selectors (3 KB) takes 37 s to build, 500 take 4.5 s, 2000 five minutes; the variables below a node can be collected from the node's children instead, which is what the text containment stands for (SNAP-6)")
+}
+
+func init() {
+	register("LDR-18", "what the loaders do with a document depends on its syntax only: no rejection by counting, no restructuring while linking, no reflect call on a value that may be invalid", 3, ruleLDR18)
+}
+
+// LDR-18 gathers four small structural clauses that round 6 asked for ((d) is described at its place below).
+//
+// (a) C17: the callbacks of the listener that can report an error into the reporter are a frozen set. A new reporting
+//
+//	site in a callback that had none (EnterGrl: "no rule entry found") turns a grammatical document into a rejected one.
+//
+// (b) C19/C05: Expression.AcceptExpression links the operand it is given and nothing else: the first one as the single
+//
+//	expression, the second one makes the node binary (Left = the single one, Right = the new one, Single = nil, all
+//	three on every path that stores a right operand). A build-time "simplification" (X == true becomes X) yields a node
+//	whose shape no evaluator knows.
+//
+// (c) C20: on the JSON fact loader path (AddJSON, NewJSONValueNode) no reflect.Value method that panics on the zero
+//
+//	Value is called on the decoded data without a validity or kind test: the text `null` decodes to exactly that.
+func ruleLDR18(c *Ctx) {
+	p := c.P
+	// ---- (a)
+	frozen := map[string]string{
+		"ExitGrl":                "duplicate rule name",
+		"ExitRuleEntry":          "entry without scopes, bad description, receiver errors",
+		"ExitSalience":           "salience out of range",
+		"ExitWhenScope":          "receiver errors",
+		"ExitThenScope":          "receiver errors",
+		"ExitThenExpressionList": "receiver errors",
+		"ExitThenExpression":     "receiver errors",
+		"ExitAssignment":         "receiver errors",
+		"ExitExpression":         "receiver errors",
+		"ExitExpressionAtom":     "receiver errors",
+		"ExitArrayMapSelector":   "receiver errors",
+		"ExitFunctionCall":       "receiver errors",
+		"ExitArgumentList":       "receiver errors",
+		"ExitVariable":           "receiver errors",
+		"ExitMemberVariable":     "receiver errors",
+		"ExitConstant":           "receiver errors",
+		"ExitStringLiteral":      "malformed literal",
+		"ExitIntegerLiteral":     "literal out of range",
+		"ExitFloatLiteral":       "literal out of range",
+		"ExitBooleanLiteral":     "receiver errors",
+		"ExitMethodCall":         "receiver errors",
+	}
+	named := p.Named("antlr", "GruleV3ParserListener")
+	if named == nil {
+		c.AnchorLost("antlr.GruleV3ParserListener")
+		return
+	}
+	ms := p.SSA.MethodSets.MethodSet(types.NewPointer(named))
+	var reporting, fresh []string
+	for i := 0; i < ms.Len(); i++ {
+		fn := p.SSA.MethodValue(ms.At(i))
+		if fn == nil || fn.Blocks == nil || delegationWrapper[fn] {
+			continue
+		}
+		name := publicName(fn)
+		if !strings.HasPrefix(name, "Enter") && !strings.HasPrefix(name, "Exit") && !strings.HasPrefix(name, "Visit") {
+			continue
+		}
+		reports := false
+		for _, ci := range callsIn(fn) {
+			if calleeNameIs(ci, "AddError") {
+				reports = true
+			}
+		}
+		if reports {
+			reporting = append(reporting, name)
+			if _, ok := frozen[name]; !ok {
+				fresh = append(fresh, name)
+			}
+		}
+	}
+	sort.Strings(reporting)
+	sort.Strings(fresh)
+	c.Check(len(fresh) == 0 && len(reporting) >= 5, "listener / the callbacks that can reject a text are the known ones", "antlr/GruleParserV3Listener.go", fmt.Sprintf("%d reporting callbacks, all in the frozen set", len(reporting)), "new reporting site(s) in "+strings.Join(fresh, ", ")+": a callback that could not reject a text before can now (an empty or comment-only document is grammatical under `grl: ruleEntry* EOF` and used to be accepted)")
+
+	// ---- (b)
+	if fn := p.Method("ast", "Expression", "AcceptExpression"); fn == nil || len(fn.Params) < 2 {
+		c.AnchorLost("(*ast.Expression).AcceptExpression")
+	} else {
+		recv, prm := ssa.Value(fn.Params[0]), ssa.Value(fn.Params[1])
+		leftF, rightF, singleF := p.Field("ast", "Expression", "LeftExpression"), p.Field("ast", "Expression", "RightExpression"), p.Field("ast", "Expression", "SingleExpression")
+		bad := ""
+		for _, b := range fn.Blocks {
+			for _, in := range b.Instrs {
+				f, base, val := fieldStore(in)
+				if f == nil || base != recv {
+					continue
+				}
+				switch f {
+				case leftF, rightF, singleF:
+				default:
+					bad = "writes the field " + f.Name() + " at " + p.InstrPos(in)
+					continue
+				}
+				if f != rightF || unspill(val) != prm {
+					continue
+				}
+				// a right operand is stored: the same path makes the node binary
+				for _, need := range []struct {
+					f    *types.Var
+					what string
+					ok   func(v ssa.Value) bool
+				}{
+					{leftF, "Left = the single expression", func(v ssa.Value) bool { lf, lb := fieldLoad(v); return lf == singleF && lb == recv }},
+					{singleF, "Single = nil", func(v ssa.Value) bool { return isNilConst(v) }},
+				} {
+					need := need
+					isNeeded := func(x ssa.Instruction) bool {
+						sf, sb, sv := fieldStore(x)
+						return sf == need.f && sb == recv && need.ok(sv)
+					}
+					// either before the store (dominating, same block earlier) or on every path after it to a success return
+					before := false
+					for _, x := range in.Block().Instrs {
+						if x == in {
+							break
+						}
+						if isNeeded(x) {
+							before = true
+						}
+					}
+					if before {
+						continue
+					}
+					if t, _ := reach(fn, in, func(x ssa.Instruction) bool { r, isRet := x.(*ssa.Return); return isRet && !returnsNonNilError(r) }, isNeeded, nil); t != nil {
+						bad = "a right operand is stored at " + p.InstrPos(in) + " on a path that does not also set " + need.what
+					}
+				}
+			}
+		}
+		c.Check(bad == "", "Expression.AcceptExpression / links the operand it is given, the second one makes the node binary", p.Pos(fn.Pos()), "only the three operand fields are written; Right is stored together with Left = Single and Single = nil", bad+": the node keeps a shape no evaluator, snapshot or clone expects (`F.P == true` reduced to `F.P` yields the raw pointer where a comparison would yield a bool)")
+	}
+
+	// ---- (d) C14/C05: in the built-in dispatch of both back ends, the value whose kind selects the string arm is the value
+	// whose String() the string function is given. reflect.Value.String() never fails: on an interface or pointer it returns
+	// a placeholder ("<interface {} Value>"), so a kind test on the unwrapped value with a read of the wrapped one answers
+	// `F.Tags[0].Len()` with the length of the placeholder instead of an error (round-6 seed C14/k).
+	for _, typ := range []string{"GoValueNode", "JSONValueNode"} {
+		fn := p.Method("model", typ, "CallFunction")
+		if fn == nil {
+			c.AnchorLost("(*model." + typ + ").CallFunction")
+			continue
+		}
+		var tag ssa.Value
+		for _, ci := range callsIn(fn) {
+			if calleeNameIs(ci, "GetBaseKind") && len(ci.Common().Args) == 1 && tag == nil {
+				tag = ci.Common().Args[0]
+			}
+		}
+		bad, nStr := "", 0
+		for _, ci := range callsIn(fn) {
+			if calleeName(ci) != "(reflect.Value).String" || len(ci.Common().Args) != 1 {
+				continue
+			}
+			nStr++
+			rv := ci.Common().Args[0]
+			if tag == nil || !(rv == tag || sameFieldLoad(rv, tag)) {
+				bad = p.InstrPos(ci.(ssa.Instruction))
+			}
+		}
+		c.Check(bad == "" && tag != nil && nStr >= 1, typ+".CallFunction / the string functions read the value whose kind was tested", p.Pos(fn.Pos()), fmt.Sprintf("%d String() reads of the dispatch value", nStr), "the String() at "+bad+" reads another value than the one whose kind selected the string arm: for a string behind an interface or pointer it yields reflect's placeholder text, and the built-in answers on that instead of failing")
+	}
+
+	// ---- (e) C19: a float64 of a JSON fact becomes an integer only under a test that it fits: the conversion is one half of
+	// a round trip (int64(f) converted back and compared with f), or sits behind the true edge of a module predicate that
+	// makes that round trip. `f == math.Trunc(f)` holds for 1e19, and int64(1e19) is MinInt64 (round-6 seed C19/k).
+	isFloat := func(t types.Type) bool {
+		b, ok := t.Underlying().(*types.Basic)
+		return ok && b.Info()&types.IsFloat != 0
+	}
+	isInt := func(t types.Type) bool {
+		b, ok := t.Underlying().(*types.Basic)
+		return ok && b.Info()&types.IsInteger != 0
+	}
+	roundTrips := func(cv *ssa.Convert) bool {
+		if cv.Referrers() == nil {
+			return false
+		}
+		for _, r := range *cv.Referrers() {
+			back, ok := r.(*ssa.Convert)
+			if !ok || !isFloat(back.Type()) || back.Referrers() == nil {
+				continue
+			}
+			for _, r2 := range *back.Referrers() {
+				if bo, isBo := r2.(*ssa.BinOp); isBo && (bo.Op.String() == "==" || bo.Op.String() == "!=") && (bo.X == cv.X || bo.Y == cv.X) {
+					return true
+				}
+			}
+		}
+		return false
+	}
+	hasRoundTrip := func(f *ssa.Function) bool {
+		if f == nil || f.Blocks == nil {
+			return false
+		}
+		for _, b := range f.Blocks {
+			for _, in := range b.Instrs {
+				if cv, ok := in.(*ssa.Convert); ok && isFloat(cv.X.Type()) && isInt(cv.Type()) && roundTrips(cv) {
+					return true
+				}
+			}
+		}
+		return false
+	}
+	var unguarded []string
+	nConv := 0
+	for _, f := range p.ModuleFuncs() {
+		if fnPkgShort(f) != "model" || !strings.Contains(f.String(), "JSONValueNode") {
+			continue
+		}
+		for _, b := range f.Blocks {
+			for _, in := range b.Instrs {
+				cv, ok := in.(*ssa.Convert)
+				if !ok || !isFloat(cv.X.Type()) || !isInt(cv.Type()) {
+					continue
+				}
+				nConv++
+				if roundTrips(cv) {
+					continue
+				}
+				guarded := edgesDominate(f, cv, func(bb *ssa.BasicBlock, si int) bool {
+					iff, isIf := bb.Instrs[len(bb.Instrs)-1].(*ssa.If)
+					if !isIf || si != 0 {
+						return false
+					}
+					call, isCall := iff.Cond.(*ssa.Call)
+					return isCall && call.Call.StaticCallee() != nil && fnInModule(call.Call.StaticCallee()) && hasRoundTrip(call.Call.StaticCallee())
+				})
+				if !guarded {
+					unguarded = append(unguarded, fnName(f)+" at "+p.InstrPos(cv))
+				}
+			}
+		}
+	}
+	sort.Strings(unguarded)
+	c.Check(len(unguarded) == 0 && nConv >= 1, "JSON back end / a number becomes an integer only under a round-trip test", "model/JsonDataAccessLayer.go", fmt.Sprintf("%d float-to-integer conversions, each a round trip or behind one", nConv), strings.Join(unguarded, "; ")+": a whole number at or beyond 2^63 (1e19, 1.5e300) wraps to MinInt64, so that `1e19 < 1` holds for a JSON fact while the same value in a Go fact compares correctly")
+
+	// ---- (c)
+	addJSON := p.Method("ast", "DataContext", "AddJSON")
+	if addJSON == nil {
+		c.AnchorLost("(*ast.DataContext).AddJSON")
+		return
+	}
+	panicsOnZero := map[string]bool{"Type": true, "Interface": true, "Len": true, "Cap": true, "Index": true, "MapIndex": true, "MapKeys": true, "MapRange": true, "Field": true, "NumField": true, "Elem": true, "Bool": true, "Int": true, "Uint": true, "Float": true, "NumMethod": true, "Method": true, "MethodByName": true, "Convert": true, "Set": true}
+	var sites []string
+	nFns := 0
+	for f := range c.reachableStop([]*ssa.Function{addJSON}, false, func(f *ssa.Function) bool { return isBarrier(f) }) {
+		nFns++
+		for _, ci := range callsIn(f) {
+			callee := ci.Common().StaticCallee()
+			if callee == nil || callee.Pkg == nil || callee.Pkg.Pkg.Path() != "reflect" || callee.Signature.Recv() == nil || !panicsOnZero[callee.Name()] || len(ci.Common().Args) == 0 {
+				continue
+			}
+			if !isNamed(callee.Signature.Recv().Type(), "reflect", "Value") {
+				continue
+			}
+			v := ci.Common().Args[0]
+			in := ci.(ssa.Instruction)
+			guarded := edgesDominate(f, in, func(b *ssa.BasicBlock, si int) bool {
+				iff, isIf := b.Instrs[len(b.Instrs)-1].(*ssa.If)
+				if !isIf {
+					return false
+				}
+				tested := false
+				backSlice(iff.Cond, func(x ssa.Value) bool {
+					if call, isCall := x.(*ssa.Call); isCall {
+						if n := calleeName(call); (n == "(reflect.Value).IsValid" || n == "(reflect.Value).Kind") && len(call.Call.Args) > 0 && (call.Call.Args[0] == v || sameFieldLoad(call.Call.Args[0], v)) {
+							tested = true
+						}
+					}
+					return !tested
+				})
+				if bo, isBo := iff.Cond.(*ssa.BinOp); isBo && !tested {
+					for _, o := range []ssa.Value{bo.X, bo.Y} {
+						if call, isCall := o.(*ssa.Call); isCall {
+							if n := calleeName(call); (n == "(reflect.Value).IsValid" || n == "(reflect.Value).Kind") && len(call.Call.Args) > 0 && (call.Call.Args[0] == v || sameFieldLoad(call.Call.Args[0], v)) {
+								tested = true
+							}
+						}
+					}
+				}
+				return tested
+			})
+			if !guarded {
+				sites = append(sites, fnName(f)+" calls reflect.Value."+callee.Name()+" at "+p.InstrPos(in))
+			}
+		}
+	}
+	sort.Strings(sites)
+	c.Check(len(sites) == 0, "DataContext.AddJSON / no reflect call that panics on the zero Value without a validity test", p.Pos(addJSON.Pos()), fmt.Sprintf("%d functions on the path, none", nFns), strings.Join(sites, "; ")+": the JSON text `null` decodes to the zero reflect.Value, on which that method panics, and nothing on the path of AddJSON recovers")
 }
